@@ -653,6 +653,42 @@ var ribGetRIBSpec = fnSpec{
 	oneofView: "GEntryKind",
 }
 
+
+// the reference counters of a RIBHolder (maps of uint64 counters) and the lookup of the instance an
+// entry's group lives in
+func refCountSpec(goName, lean, table string, ret bool) fnSpec {
+	sp := fnSpec{
+		file: "rib/rib.go", goName: goName, recvType: "*RIBHolder", callAs: "niR." + goName + "§", leanName: lean,
+		params: []param{{goName: "i", goType: "uint64", lean: "i", kd: kNat}},
+		goRets: "", rets: []string{},
+		state:  []stateField{{goExpr: "r.refCounts." + table, lean: "counts", kd: kind{k: "map", s: "Nat", t: []kind{kNat}}}},
+	}
+	if ret {
+		sp.goRets, sp.rets = "bool", []string{"bool"}
+	}
+	return sp
+}
+
+var ribRefCountSpecs = []fnSpec{
+	refCountSpec("incNHGRefCount", "incNHGRefCount", "NextHopGroup", false),
+	refCountSpec("decNHGRefCount", "decNHGRefCount", "NextHopGroup", false),
+	refCountSpec("nhgReferenced", "nhgReferenced", "NextHopGroup", true),
+	refCountSpec("incNHRefCount", "incNHRefCount", "NextHop", false),
+	refCountSpec("decNHRefCount", "decNHRefCount", "NextHop", false),
+	refCountSpec("nhReferenced", "nhReferenced", "NextHop", true),
+	{
+		file: "rib/rib.go", goName: "refdRIB", recvType: "*RIB", callAs: "r.refdRIB§", leanName: "refdRIB",
+		params: []param{
+			// a RIBHolder is represented by the name of its network instance
+			{goName: "ni", goType: "*RIBHolder", lean: "ni", kd: kStr},
+			{goName: "ref", goType: "string", lean: "ref", kd: kStr},
+		},
+		goRets: "*RIBHolder, error", rets: []string{"ptr:String", "err"},
+		oracleParams: []param{{goName: "§niKnown", lean: "niKnown", kd: kind{k: "fun", t: []kind{kBool, kStr}}}},
+		oracles:      map[string]oracle{"r.NetworkInstanceRIB": {results: []string{"$0", "§niKnown@0"}}},
+	},
+}
+
 var ribSpecs = []fnSpec{
 	{
 		file: "rib/rib.go", goName: "getPending", recvType: "*RIB", callAs: "r.getPending", leanName: "getPending",
@@ -1078,4 +1114,5 @@ func init() {
 	specs = append(specs, ribSpecs...)
 	specs = append(specs, ribFlushSpec)
 	specs = append(specs, ribGetRIBSpec)
+	specs = append(specs, ribRefCountSpecs...)
 }
